@@ -86,6 +86,9 @@ def jx(n):
         # the one-based loop counters minus one are the zero-based ones: `loop.index - 1` is `loop.index0` (canonical form)
         if t is nodes.Sub and r == ("const", 1) and l[0] == "attr" and l[1] == ("name", "loop") and l[2] in ("index", "revindex"):
             return ("attr", l[1], l[2] + "0")
+        # ... and counting from the other end: `loop.length - loop.revindex` is `loop.index0`, `loop.length - loop.index` is `loop.revindex0`
+        if t is nodes.Sub and l == ("attr", ("name", "loop"), "length") and r[0] == "attr" and r[1] == ("name", "loop") and r[2] in ("index", "revindex"):
+            return ("attr", r[1], {"revindex": "index0", "index": "revindex0"}[r[2]])
         return ("bin", BIN[t], l, r)
     if t is nodes.Neg:
         return ("neg", jx(n.node))
